@@ -68,9 +68,9 @@ def _np_cross(interp, a, b, **kw):
         return sv.sub(sv.mul(ra(ia + (p,)), rb(ib + (q,))), sv.mul(ra(ia + (q,)), rb(ib + (p,))))
 
     if da == 2:
-        if nd == 0:
-            return comp((), 0, 1)
-        return A.new_arr(lead, lambda idx: comp(tuple(idx), 0, 1), dt)
+        # numpy >= 2.5 rejects 2-vectors (deprecated since 2.0): "Both input arrays must be (arrays of) 3-dimensional vectors"
+        from ..interp import PyRaise
+        raise PyRaise("ValueError", "np.cross: both input arrays must be (arrays of) 3-dimensional vectors")
     pairs = ((1, 2), (2, 0), (0, 1))
 
     def fn(idx):
